@@ -186,6 +186,254 @@ pub mod std {
         }
     }
 
+
+    /// `std::fs` with a fault-injecting `File` (see `crate::simfs`). Files are real files; when
+    /// the calling thread has an `FsSim` installed every open/create/read/write/flush first asks
+    /// it whether to proceed, transfer less, or fail. Without an `FsSim` everything forwards.
+    pub mod fs {
+        pub use ::std::fs::{
+            DirBuilder, DirEntry, FileTimes, FileType, Metadata, Permissions, ReadDir, canonicalize, copy, create_dir, create_dir_all, exists,
+            hard_link, metadata, read_dir, read_link, remove_dir, remove_dir_all, remove_file, rename, set_permissions, symlink_metadata,
+        };
+
+        use crate::simfs::{Decision, FsSim, OpKind};
+        use ::std::io::{self, Read, Seek, SeekFrom, Write};
+        use ::std::path::{Path, PathBuf};
+        use ::std::sync::Arc;
+
+        #[derive(Debug)]
+        pub struct File {
+            inner: ::std::fs::File,
+            tap: Option<(Arc<FsSim>, PathBuf)>,
+        }
+
+        impl ::std::fmt::Debug for FsSim {
+            fn fmt(&self, f: &mut ::std::fmt::Formatter<'_>) -> ::std::fmt::Result {
+                f.write_str("FsSim")
+            }
+        }
+
+        fn gate(fs: &Option<Arc<FsSim>>, path: &Path, kind: OpKind) -> io::Result<()> {
+            if let Some(fs) = fs {
+                crate::yield_if_sim("fs-open");
+                let (d, idx, inj) = fs.before(path, kind, 0);
+                if let Decision::Fail(e) = d {
+                    fs.after(path, kind, idx, 0, Err(e.to_string()), inj);
+                    return Err(e);
+                }
+                fs.after(path, kind, idx, 0, Ok(0), inj);
+            }
+            Ok(())
+        }
+
+        impl File {
+            fn wrap(inner: ::std::fs::File, fs: Option<Arc<FsSim>>, path: &Path) -> File {
+                File { inner, tap: fs.map(|f| (f, path.to_path_buf())) }
+            }
+            pub fn open<P: AsRef<Path>>(path: P) -> io::Result<File> {
+                let fs = crate::simfs::current();
+                gate(&fs, path.as_ref(), OpKind::Open)?;
+                ::std::fs::File::open(path.as_ref()).map(|f| File::wrap(f, fs, path.as_ref()))
+            }
+            pub fn create<P: AsRef<Path>>(path: P) -> io::Result<File> {
+                let fs = crate::simfs::current();
+                gate(&fs, path.as_ref(), OpKind::Create)?;
+                ::std::fs::File::create(path.as_ref()).map(|f| File::wrap(f, fs, path.as_ref()))
+            }
+            pub fn create_new<P: AsRef<Path>>(path: P) -> io::Result<File> {
+                let fs = crate::simfs::current();
+                gate(&fs, path.as_ref(), OpKind::Create)?;
+                ::std::fs::File::create_new(path.as_ref()).map(|f| File::wrap(f, fs, path.as_ref()))
+            }
+            pub fn options() -> OpenOptions {
+                OpenOptions::new()
+            }
+            pub fn sync_all(&self) -> io::Result<()> {
+                self.ctl(OpKind::Sync)?;
+                self.inner.sync_all()
+            }
+            pub fn sync_data(&self) -> io::Result<()> {
+                self.ctl(OpKind::Sync)?;
+                self.inner.sync_data()
+            }
+            pub fn set_len(&self, size: u64) -> io::Result<()> {
+                self.inner.set_len(size)
+            }
+            pub fn metadata(&self) -> io::Result<::std::fs::Metadata> {
+                self.inner.metadata()
+            }
+            pub fn try_clone(&self) -> io::Result<File> {
+                Ok(File { inner: self.inner.try_clone()?, tap: self.tap.clone() })
+            }
+            pub fn set_permissions(&self, perm: ::std::fs::Permissions) -> io::Result<()> {
+                self.inner.set_permissions(perm)
+            }
+            fn ctl(&self, kind: OpKind) -> io::Result<()> {
+                if let Some((fs, path)) = &self.tap {
+                    crate::yield_if_sim("fs-ctl");
+                    let (d, idx, inj) = fs.before(path, kind, 0);
+                    if let Decision::Fail(e) = d {
+                        fs.after(path, kind, idx, 0, Err(e.to_string()), inj);
+                        return Err(e);
+                    }
+                    fs.after(path, kind, idx, 0, Ok(0), inj);
+                }
+                Ok(())
+            }
+            fn do_read(&self, buf: &mut [u8]) -> io::Result<usize> {
+                match &self.tap {
+                    None => (&self.inner).read(buf),
+                    Some((fs, path)) => {
+                        crate::yield_if_sim("fs-read");
+                        let (d, idx, inj) = fs.before(path, OpKind::Read, buf.len());
+                        let r = match d {
+                            Decision::Fail(e) => Err(e),
+                            Decision::Proceed(n) => (&self.inner).read(&mut buf[..n]),
+                        };
+                        fs.after(path, OpKind::Read, idx, buf.len(), r.as_ref().map(|n| *n).map_err(|e| e.to_string()), inj);
+                        r
+                    }
+                }
+            }
+            fn do_write(&self, buf: &[u8]) -> io::Result<usize> {
+                match &self.tap {
+                    None => (&self.inner).write(buf),
+                    Some((fs, path)) => {
+                        crate::yield_if_sim("fs-write");
+                        let (d, idx, inj) = fs.before(path, OpKind::Write, buf.len());
+                        let r = match d {
+                            Decision::Fail(e) => Err(e),
+                            Decision::Proceed(n) => (&self.inner).write(&buf[..n]),
+                        };
+                        fs.after(path, OpKind::Write, idx, buf.len(), r.as_ref().map(|n| *n).map_err(|e| e.to_string()), inj);
+                        r
+                    }
+                }
+            }
+            fn do_flush(&self) -> io::Result<()> {
+                self.ctl(OpKind::Flush)?;
+                (&self.inner).flush()
+            }
+        }
+
+        impl Read for File {
+            fn read(&mut self, buf: &mut [u8]) -> io::Result<usize> {
+                self.do_read(buf)
+            }
+        }
+        impl Read for &File {
+            fn read(&mut self, buf: &mut [u8]) -> io::Result<usize> {
+                self.do_read(buf)
+            }
+        }
+        impl Write for File {
+            fn write(&mut self, buf: &[u8]) -> io::Result<usize> {
+                self.do_write(buf)
+            }
+            fn flush(&mut self) -> io::Result<()> {
+                self.do_flush()
+            }
+        }
+        impl Write for &File {
+            fn write(&mut self, buf: &[u8]) -> io::Result<usize> {
+                self.do_write(buf)
+            }
+            fn flush(&mut self) -> io::Result<()> {
+                self.do_flush()
+            }
+        }
+        impl Seek for File {
+            fn seek(&mut self, pos: SeekFrom) -> io::Result<u64> {
+                self.inner.seek(pos)
+            }
+        }
+        impl Seek for &File {
+            fn seek(&mut self, pos: SeekFrom) -> io::Result<u64> {
+                (&self.inner).seek(pos)
+            }
+        }
+        impl ::std::os::fd::AsRawFd for File {
+            fn as_raw_fd(&self) -> ::std::os::fd::RawFd {
+                self.inner.as_raw_fd()
+            }
+        }
+        impl ::std::os::fd::AsFd for File {
+            fn as_fd(&self) -> ::std::os::fd::BorrowedFd<'_> {
+                self.inner.as_fd()
+            }
+        }
+        impl From<File> for ::std::process::Stdio {
+            fn from(f: File) -> ::std::process::Stdio {
+                f.inner.into()
+            }
+        }
+
+        /// `std::fs::OpenOptions` producing shim files.
+        #[derive(Clone, Debug)]
+        pub struct OpenOptions {
+            inner: ::std::fs::OpenOptions,
+            creates: bool,
+        }
+        impl Default for OpenOptions {
+            fn default() -> Self {
+                OpenOptions::new()
+            }
+        }
+        impl OpenOptions {
+            pub fn new() -> OpenOptions {
+                OpenOptions { inner: ::std::fs::OpenOptions::new(), creates: false }
+            }
+            pub fn read(&mut self, v: bool) -> &mut Self {
+                self.inner.read(v);
+                self
+            }
+            pub fn write(&mut self, v: bool) -> &mut Self {
+                self.inner.write(v);
+                self
+            }
+            pub fn append(&mut self, v: bool) -> &mut Self {
+                self.inner.append(v);
+                self
+            }
+            pub fn truncate(&mut self, v: bool) -> &mut Self {
+                self.inner.truncate(v);
+                self
+            }
+            pub fn create(&mut self, v: bool) -> &mut Self {
+                self.inner.create(v);
+                self.creates = self.creates || v;
+                self
+            }
+            pub fn create_new(&mut self, v: bool) -> &mut Self {
+                self.inner.create_new(v);
+                self.creates = self.creates || v;
+                self
+            }
+            pub fn open<P: AsRef<Path>>(&self, path: P) -> io::Result<File> {
+                let fs = crate::simfs::current();
+                gate(&fs, path.as_ref(), if self.creates { OpKind::Create } else { OpKind::Open })?;
+                self.inner.open(path.as_ref()).map(|f| File::wrap(f, fs, path.as_ref()))
+            }
+        }
+
+        pub fn read<P: AsRef<Path>>(path: P) -> io::Result<Vec<u8>> {
+            let mut f = File::open(path)?;
+            let mut v = Vec::new();
+            f.read_to_end(&mut v)?;
+            Ok(v)
+        }
+        pub fn read_to_string<P: AsRef<Path>>(path: P) -> io::Result<String> {
+            let mut f = File::open(path)?;
+            let mut s = String::new();
+            f.read_to_string(&mut s)?;
+            Ok(s)
+        }
+        pub fn write<P: AsRef<Path>, C: AsRef<[u8]>>(path: P, contents: C) -> io::Result<()> {
+            let mut f = File::create(path)?;
+            f.write_all(contents.as_ref())
+        }
+    }
+
     pub mod hint {
         pub use ::std::hint::*;
 
